@@ -934,13 +934,13 @@ static json result_to_json(const Result &r) {
   return json{{"ok", r.ok}, {"discard", r.discard}, {"nt", r.nontrivial}, {"key", r.key}, {"msg", r.msg}, {"classes", r.classes}};
 }
 
-static Result run_case(const json &c) {
-  Result out;
+// one execution of the case in a forked child; returns false when the child was killed by its own watchdog (SIGALRM)
+static bool run_child_once(const json &c, unsigned watchdog_s, Result &out) {
   fs::create_directories("/verif/build/work");
   char tmpl[] = "/verif/build/work/c17-XXXXXX";
   if (!mkdtemp(tmpl)) {
     out.fail("harness/mkdtemp", strerror(errno));
-    return out;
+    return true;
   }
   std::string dir = tmpl;
   Shared *s = shm();
@@ -952,7 +952,7 @@ static Result run_case(const json &c) {
   if (pid < 0) {
     out.fail("harness/fork", strerror(errno));
     fs::remove_all(dir);
-    return out;
+    return true;
   }
   if (pid == 0) {
     // child: no crash files / stats from here, die quietly
@@ -960,7 +960,8 @@ static Result run_case(const json &c) {
     st().crash.clear();
     st().out.clear();
     signal(SIGABRT, SIG_DFL);
-    alarm(300);
+    alarm(watchdog_s);          // wall clock: only for blocked system calls, retried by the parent
+    arm_cpu_watchdog(true);     // the framework's load-independent budget (interval timers are not inherited over fork)
     Machine m;
     m.file = dir + "/cpt.hdf5";
     try {
@@ -991,14 +992,37 @@ static Result run_case(const json &c) {
     out.key = j.at("key");
     out.msg = j.at("msg");
     out.classes = j.at("classes").get<std::vector<std::string>>();
-    return out;
+    return true;
+  }
+  if (WIFSIGNALED(status) && WTERMSIG(status) == SIGALRM) return false;
+  if (WIFEXITED(status) && WEXITSTATUS(status) == 87) {
+    out.fail("no-termination-within-cpu-budget", fmt("case used more than %ld s of CPU time during: ", case_cpu_budget_s()) + s->marker_txt);
+    return true;
   }
   std::string how = WIFSIGNALED(status) ? fmt("killed by signal %d", WTERMSIG(status)) : fmt("exit code %d", WEXITSTATUS(status));
   std::string key = s->marker_key[0] ? s->marker_key : "Checkpoint/crash";
-  if (WIFSIGNALED(status) && WTERMSIG(status) == SIGALRM) key = "Checkpoint/timeout";
   out.fail(key, "process died (" + how + "; sanitizer report / assertion in the log) during: " + s->marker_txt);
+  return true;
+}
+
+// A case needs ~25 ms.  On a starved machine (memory pressure stalls of minutes were observed while 100+ sanitizer processes
+// of other checks were running) a child can exceed any reasonable watchdog without hanging: a watchdog kill is therefore
+// repeated twice with a 10-minute watchdog; only a case that never finishes is reported (a real hang is deterministic).
+static Result run_case(const json &c) {
+  for (unsigned attempt = 0; attempt < 3; ++attempt) {
+    Result out;
+    if (run_child_once(c, attempt == 0 ? 120 : 600, out)) {
+      if (attempt > 0) out.cls("watchdog-retry-succeeded(machine starved)");
+      return out;
+    }
+  }
+  Result out;
+  out.fail("Checkpoint/timeout", std::string("case did not finish within 120 s + 2 x 600 s, last activity: ") + shm()->marker_txt);
   return out;
 }
+
+// smaller quarantine: the parent only shuffles JSON, and fork() cost grows with its resident set
+extern "C" const char *__asan_default_options() { return "quarantine_size_mb=16"; }
 
 int main(int argc, char **argv) {
   std::vector<Sub> subs;
